@@ -133,12 +133,15 @@ pub fn gen_c01(ctx: &Ctx, rng: &mut Rng, out: &mut Vec<String>) {
         else {
             let container = ["vcf", "vcf", "bcf", "vcfgz", "rawbcf"][i % 5];
             if container.contains("bcf") { bcf_safe(&mut recs); } else if i % 2 == 1 { widen(g.rng, &mut recs); }
-            out.push(format!("c01.cli\t{container}\tpath\t4\t0\t{}\t{c}\t{sl}\tN\t0\t{}\t{}", (i % 2), if i % 4 == 0 { "3" } else { "-" }, records_str(&recs)));
+            // the BGZF containers in varying block layouts, including the ends of the stream (text without final newline cut inside its last
+            // line, a leading empty block, a two-byte first block)
+            let layout = [0u64, 14, 25, 38, 1, 13, 26, 37][(i / 5) % 8];
+            out.push(format!("c01.cli\t{container}\tpath\t4\t{layout}\t{}\t{c}\t{sl}\tN\t0\t{}\t{}", (i % 2), if i % 4 == 0 { "3" } else { "-" }, records_str(&recs)));
             // byte level (the model decodes the container itself); sample lists given by file are left to the `.cli` form
             if i % 3 == 0 && !sl.starts_with("S:") {
                 let rs = records_str(&recs);
                 let cs = crate::vcf::CallSet { cols: names.clone(), recs: crate::create::parse_records(&rs), extras: i % 2 == 1, wide: 0 };
-                if let Some(l) = crate::create::bytes_case(&cs, container, (i % 4) as u64, &c, &sl, "N", "0", "-", &rs) { out.push(l); }
+                if let Some(l) = crate::create::bytes_case(&cs, container, [0u64, 1, 2, 3, 14, 25, 38, 13][(i / 3) % 8], &c, &sl, "N", "0", "-", &rs) { out.push(l); }
             }
         }
     }
@@ -201,6 +204,16 @@ pub fn gen_c08(ctx: &Ctx, rng: &mut Rng, out: &mut Vec<String>) {
             }
         }
     }
+    // the error must name the record's contig also when the BCF header numbers its contigs by `IDX` attributes that differ from the
+    // order of the lines (and a skipped site in strict mode likewise)
+    for (k, recs) in ["chrA~10~0/1,1/1;chrA~30~0,0/1;chrB~5~0/1,0/1", "chrB~7~0/1,0/0;chrA~30~0/0/1,0/1", "chrA~10~0/1,1/1;chrB~5~./.,0/1;chrB~6~1,1"].into_iter().enumerate() {
+        for container in ["bcf", "rawbcf", "vcf"] {
+            for (sl, strict) in [("s:s0=A", "0"), ("N", "0"), ("s:s0=A", "1")] {
+                if !ctx.tier_thorough && (k + strict.len()) % 2 == 1 && sl == "N" { continue; }
+                out.push(format!("c08.cli\t{container}\tpath\t4\t0\tw{}\ts0,s1\t{sl}\tN\t{strict}\t-\t{recs}", 2000 + k));
+            }
+        }
+    }
     // two and three selected columns: every ordered combination of (called, missing, multiallelic, not diploid) — a ploidy error must
     // abort the run wherever it stands relative to a skipped genotype; with and without projection, 1 and 2 populations
     let classes = ["0/1", "./.", "1/2", "0", "0/0/1", "."];
@@ -226,6 +239,18 @@ pub fn gen_c09(ctx: &Ctx, rng: &mut Rng, out: &mut Vec<String>) {
         // unlisted sample must never decide anything
         let mut recs = recs;
         if i % 5 == 2 { for r in recs.iter_mut() { for (c, a) in assign.iter().enumerate() { if a.is_none() { r.2[c] = ["1", "0", "0/0/1", "./././.", "1|1|0"][(c + r.1) % 5].to_string(); } } } }
+        // every sixth call set: one record in which a listed sample is missing (or multiallelic) and another listed sample is not diploid —
+        // the run fails at that record whichever of the two columns comes first (and however the list or the columns are permuted)
+        if i % 6 == 4 {
+            let listed: Vec<usize> = assign.iter().enumerate().filter(|(_, a)| a.is_some()).map(|(k, _)| k).collect();
+            if listed.len() >= 2 {
+                let (a, b) = if i % 12 == 4 { (listed[0], listed[listed.len() - 1]) } else { (listed[listed.len() - 1], listed[0]) };
+                let mut gts: Vec<String> = vec!["0/1".to_string(); ncols];
+                gts[a] = ["./.", "1/2", "."][(i / 6) % 3].to_string(); gts[b] = ["1", "0/0/1", "0|1|1"][(i / 12) % 3].to_string();
+                let at = (i / 6) % (recs.len() + 1);
+                recs.insert(at, ("7".to_string(), 500 + at, gts));
+            }
+        }
         let base_order: Vec<usize> = (0..ncols).collect();
         // a third of the call sets use sample names and labels with blanks / punctuation (never `,` `=` tab or newline, which
         // delimit the list syntax): distinct labels sharing their first word, a label that is a prefix of another, an empty label
@@ -366,7 +391,16 @@ fn gen_c11_cohorts(ctx: &Ctx, rng: &mut Rng, out: &mut Vec<String>) {
     }
 }
 
+/// runs far larger than the model is evaluated on: the conservation law mass + skipped = records on the binary's own output
+/// (more than 2^16 projected records in one run; thousands of distinct (called, ALT) configurations across two populations)
+pub fn gen_mass(ctx: &Ctx, p: &str, out: &mut Vec<String>) {
+    out.push(format!("{p}.mass\t2\t1\t70002\tind:1\t0\t7"));
+    out.push(format!("{p}.mass\t40\t2\t{}\tind:3,3\t60\t11", if ctx.tier_thorough { 60000 } else { 30000 }));
+    if ctx.tier_thorough { out.push(format!("{p}.mass\t12\t3\t140000\tshape:3,4,2\t100\t13")); out.push(format!("{p}.mass\t3\t1\t200000\tN\t50\t17")); }
+}
+
 pub fn gen_c10(ctx: &Ctx, rng: &mut Rng, out: &mut Vec<String>) {
+    gen_mass(ctx, "c10", out);
     // large cohorts under projection through the binary: every counted record must still weigh exactly one
     for n in [540usize, 600] {
         if !ctx.tier_thorough && n != 600 { continue; }
@@ -413,7 +447,7 @@ pub fn gen_c10(ctx: &Ctx, rng: &mut Rng, out: &mut Vec<String>) {
                                // … in the repeating streams at the position of its predecessor (which may be skipped as well)
                                if rep && pos > 0 { (base[pos - 1].0.clone(), base[pos - 1].1, gts) } else { ("9".to_string(), 900 + pos, gts) } }
                         2 => ("9".to_string(), 900 + pos, vec![["!badpos", "!dupinfo", "!badqual", "!badinfo"][(pos + i) % 4].to_string()]),
-                        _ => ("9".to_string(), 900 + pos, vec![["!trunc", "!dupid", "!dupfilter", "!badinfo"][(pos + i / 2) % 4].to_string()]),
+                        _ => ("9".to_string(), 900 + pos, vec![["!trunc", "!dupid", "!dupfilter", "!bigpos"][(pos + i / 2) % 4].to_string()]),
                     };
                     recs.insert(pos, ins);
                     out.push(format!("c10.cli\tvcf\t{}\t4\t0\t0\t{c}\t{sl}\t{proj}\t{strict}\t{}\t{}", if fault % 2 == 0 { "path" } else { "stdin" }, if proj == "N" { "-" } else { "6" }, records_str(&recs)));
@@ -432,6 +466,7 @@ pub fn gen_c10(ctx: &Ctx, rng: &mut Rng, out: &mut Vec<String>) {
 }
 
 pub fn gen_c02(ctx: &Ctx, rng: &mut Rng, out: &mut Vec<String>) {
+    gen_mass(ctx, "c02", out);
     let mut g = Gen { rng };
     // exhaustive: 2 populations, sizes <= 2, every target m_j in 0..2n_j, all missingness patterns of one record (in-process)
     for n0 in 1..=2usize { for n1 in 1..=2usize {
@@ -551,7 +586,8 @@ pub fn gen_c12(ctx: &Ctx, rng: &mut Rng, out: &mut Vec<String>) {
         // BCF string dictionary then needs the largest 8-bit value, a 16-bit key below 256 and one above
         // ... and every eighth call set declares INFO fields AFTER FORMAT/GT (header lines come in any order; the dictionary follows the
         // order of appearance)
-        let wide = if i % 4 == 3 { 126 + (i % 3) * 70 + (i % 3) / 2 } else if i % 8 == 5 { 1001 + (i % 3) * 2 } else { 0 };
+        // ... and every eighth one writes `IDX` attributes on every dictionary line (as bcftools does), out of line order
+        let wide = if i % 4 == 3 { 126 + (i % 3) * 70 + (i % 3) / 2 } else if i % 8 == 5 { 1001 + (i % 3) * 2 } else if i % 8 == 1 { 2000 + (i % 5) } else { 0 };
         let ex = if wide > 0 { format!("w{wide}") } else { (i % 2).to_string() };
         out.push(format!("c12.same\t{ex}\t{}\t{sl}\t{proj}\t0\t{}\t{}", cols(ncols).join(","), if proj == "N" { "-" } else { "6" }, records_str(&recs)));
         // byte level: the same call set in each container, the model decoding the very bytes handed to the binary
@@ -559,7 +595,7 @@ pub fn gen_c12(ctx: &Ctx, rng: &mut Rng, out: &mut Vec<String>) {
             let rs = records_str(&recs);
             let cs = crate::vcf::CallSet { cols: cols(ncols), recs: crate::create::parse_records(&rs), extras: wide == 0 && i % 2 == 1, wide };
             for (ci, container) in ["vcf", "vcfgz", "bcf", "rawbcf"].into_iter().enumerate() {
-                if let Some(l) = crate::create::bytes_case(&cs, container, ((i + ci) % 4) as u64, &cols(ncols).join(","), &sl, &proj, "0", if proj == "N" { "-" } else { "6" }, &rs) { out.push(l); }
+                if let Some(l) = crate::create::bytes_case(&cs, container, [0u64, 1, 2, 3, 14, 25, 38, 13, 26, 37][(i + ci) % 10], &cols(ncols).join(","), &sl, &proj, "0", if proj == "N" { "-" } else { "6" }, &rs) { out.push(l); }
             }
         }
     }
